@@ -1,9 +1,11 @@
 mod accept;
 mod bits;
 mod core;
+mod cprcheck;
 mod decoder;
 mod framecheck;
 mod framegen;
+mod refcpr;
 mod refdec;
 mod total;
 
@@ -38,6 +40,7 @@ fn main() {
             "C01" => total::replay_c01(&v),
             "C02" => accept::replay_c02(&v),
             "C03" => accept::replay_c03(&v),
+            "C05" => cprcheck::replay_c05(&v),
             "C04" | "C06" | "C07" | "C08" | "C09" | "C10" => decoder::replay(pid, &v),
             _ => usage(),
         };
@@ -54,6 +57,7 @@ fn main() {
         "C02" => accept::run_c02(&ctx),
         "C03" => accept::run_c03(&ctx),
         "C04" => decoder::run_c04(&ctx),
+        "C05" => cprcheck::run_c05(&ctx),
         "C06" => decoder::run_c06(&ctx),
         "C07" => decoder::run_c07(&ctx),
         "C08" => decoder::run_c08(&ctx),
